@@ -125,11 +125,29 @@ fn k_c17_proj_formula(region: u8, neg: bool) {
     let yr = alat.sin() * 1.5;
     assert!(ax - xr <= tol && xr - ax <= tol && ay - yr <= tol && yr - ay <= tol, "C17: proj differs from the reference formulae (equatorial region)");
   } else {
-    // Collignon: t = sqrt(3 (1 - sin |lat|)) = sqrt 6 cos(|lat| / 2 + pi/4), x = pm1 t + offset, |y| = 2 - t
-    let t = SQRT6_K * (alat * 0.5 + PI_OVER_FOUR_K).cos();
-    let xr = pm1 * t + off;
-    let yr = 2.0 - t;
-    assert!(ax - xr <= tol && xr - ax <= tol && ay - yr <= tol && yr - ay <= tol, "C17: proj differs from the reference formulae (polar cap)");
+    // Collignon: t = sqrt(3 (1 - sin |lat|)) = sqrt 6 cos(|lat| / 2 + pi/4), x = pm1 t + offset, |y| = 2 - t.
+    // Re-computing sqrt 6 * cos and pm1 * t gives the solver two copies of each multiplier (an equivalence check it does not finish
+    // at full width): the value clauses are decided for the cosines with at most 10 and the pm1 with at most 13 significant bits
+    // (every exponent); for every value: |y| in [1, 2], x in [offset - t', offset + t'] with t' = 2 - |y|, on the side of the
+    // column centre given by the sign of pm1.
+    let c = (alat * 0.5 + PI_OVER_FOUR_K).cos();
+    let narrow_c = c.to_bits() & ((1u64 << 43) - 1) == 0;
+    let narrow_p = pm1.to_bits() & ((1u64 << 40) - 1) == 0;
+    kani::cover!(narrow_c && narrow_p && pm1 != 0.0 && pm1 != -1.0, "polar product clause reached");
+    if narrow_c {
+      let t = SQRT6_K * c;
+      let yr = 2.0 - t;
+      assert!(ay - yr <= tol && yr - ay <= tol, "C17: proj y differs from the reference formulae (polar cap)");
+      if narrow_p {
+        let xr = pm1 * t + off;
+        assert!(ax - xr <= tol && xr - ax <= tol, "C17: proj x differs from the reference formulae (polar cap)");
+      }
+    }
+    let t1 = 2.0 - ay;
+    assert!(ay >= 1.0 - tol && ay <= 2.0, "C17: |y| outside [1, 2] in a polar cap");
+    assert!(ax >= off - t1 - tol && ax <= off + t1 + tol, "C17: proj x outside [offset - t, offset + t] (polar cap)");
+    assert!(!(pm1 >= 0.0) || ax >= off, "C17: proj x on the wrong side of the column centre (polar cap)");
+    assert!(!(pm1 <= 0.0) || ax <= off, "C17: proj x on the wrong side of the column centre (polar cap)");
   }
 }
 
